@@ -56,3 +56,17 @@ From V Require Import SchemaDefs Generated SamlSchema P_SamlSchema.
 Theorem C08_decode_schema_is_saml_core : xml_schema = saml_core_schema.
 Proof. exact schema_is_saml_core. Qed.
 Print Assumptions C08_decode_schema_is_saml_core.
+
+(* ---- tie to the source text: RetrieveAssertionInfo and the Values accessors (GenFuncs.v, re-translated on every run) ---- *)
+From V Require Import Profile GenPrelude GenFuncs P_GenFuncs.
+Theorem C08_source_RetrieveAssertionInfo_is_the_model : forall cfg now enc (v : res response),
+  G_RetrieveAssertionInfo cfg now enc (res_some v) = PVal (res_some (retrieve_info cfg now v)).
+Proof. exact G_RetrieveAssertionInfo_eq. Qed.
+Print Assumptions C08_source_RetrieveAssertionInfo_is_the_model.
+
+Theorem C08_source_Values_accessors_are_the_model : forall m now k,
+  G_Values_Get m now k = PVal (values_get m k) /\
+  G_Values_GetSize m now k = PVal (values_get_size m k) /\
+  G_Values_GetAll m now k = PVal (values_get_all m k).
+Proof. intros m now k. exact (conj (G_Values_Get_eq m now k) (conj (G_Values_GetSize_eq m now k) (G_Values_GetAll_eq m now k))). Qed.
+Print Assumptions C08_source_Values_accessors_are_the_model.
